@@ -105,6 +105,12 @@ def run_listby(case, ctx):
         ok2 = st2 == 'ok' and type(ug) is dictable and sorted(ug.keys()) == sorted(cols) and \
             collections.Counter(rowkey(dict(r)) for r in ug) == collections.Counter(rowkey(r) for r in rows)
         ctx.check('ungroup_multiset', ok2, lambda: 'ungroup(groupby) = %s\noriginal %s' % ([dict(r) for r in ug] if st2 == 'ok' else ug, rows))
+        if ok and ok2:
+            # the grouped table is an operand of ungroup: it must still hold the same groups, and ungrouping again gives the same rows
+            sizes = [len(r['grp']) for r in gb]
+            st3, ug2 = ctx.call(gb.ungroup)
+            ok3 = sum(sizes) == n and st3 == 'ok' and collections.Counter(rowkey(dict(r)) for r in ug2) == collections.Counter(rowkey(r) for r in rows)
+            ctx.check('ungroup_multiset', ok3, lambda: 'after one ungroup() the grouped table changed: sub-table sizes %s (len(d)=%d); second ungroup %s' % (sizes, n, [dict(r) for r in ug2] if st3 == 'ok' else ug2))
     ctx.check('operands_unchanged', core.snap_same(core.snap(dict(d)), snap0), lambda: 'table modified')
     if len(g) >= 2 and any(len(rs) >= 2 for _, rs in g):
         ctx.mark_nontrivial(case)
